@@ -123,6 +123,10 @@ pub struct Conn {
     /// all ParameterStatus messages received after startup (key, value)
     pub param_updates: Vec<(String, String)>,
     pub startup_msgs: Vec<Msg>,
+    /// a read for a whole reply (`read_until_ready`) timed out: the reply may still arrive later,
+    /// so every further request/reply exchange on this connection would be one reply behind.
+    /// Further `query` calls fail at once instead of reporting a stale reply as the new one.
+    pub desynced: bool,
 }
 
 pub struct NoVerify;
@@ -178,6 +182,7 @@ impl Conn {
             last_status: b'?',
             param_updates: vec![],
             startup_msgs: vec![],
+            desynced: false,
         }
     }
 
@@ -357,6 +362,7 @@ impl Conn {
         loop {
             let now = now_ns();
             if now >= deadline {
+                self.desynced = true;
                 return Err((out, ReadErr::Timeout));
             }
             let left = ((deadline - now) / 1_000_000).max(1);
@@ -368,7 +374,12 @@ impl Conn {
                         return Ok(out);
                     }
                 }
-                Err(e) => return Err((out, e)),
+                Err(e) => {
+                    if e == ReadErr::Timeout {
+                        self.desynced = true;
+                    }
+                    return Err((out, e));
+                }
             }
         }
     }
@@ -401,6 +412,9 @@ impl Conn {
     }
 
     pub fn query(&mut self, sql: &str, timeout_ms: u64) -> Result<Vec<Msg>, (Vec<Msg>, ReadErr)> {
+        if self.desynced {
+            return Err((vec![], ReadErr::Io("connection given up after an earlier read timeout (would be one reply behind)".into())));
+        }
         if let Err(e) = self.send(&proto::query(sql)) {
             return Err((vec![], ReadErr::Io(e.to_string())));
         }
